@@ -249,7 +249,7 @@ Proof.
     constructor; [kv_dec|]. destruct cfg; [|constructor]. destruct Hc as [Hb _].
     constructor; [split; cbn [fst snd]; [lit_key|apply wf_val_plain; apply plain_hex; exact Hb]|constructor].
   - (* Opus *) cbn in *. destruct Hwf as (Hd & _). injection Hr as <-. injection Hf as <-.
-    split; [apply dyn_lt256; exact Hd|split].
+    split; [exact Hd|split].
     + destruct (ch <=? 2); [reflexivity|last_dec].
     + destruct (ch <=? 2); [destruct (ch =? 2); repeat (constructor; [kv_lit|]); constructor|].
       destruct (ch =? 3), (ch =? 4), (ch =? 5), (ch =? 6), (ch =? 7); unfold opus_multi; repeat (constructor; [kv_lit|]); constructor.
@@ -285,10 +285,10 @@ Proof.
     split; [apply dyn_lt256; exact Hd|split; [|constructor]].
     cbn [app]; repeat first [ rewrite last_ok_cons by ne_tac | rewrite last_ok_app by ne_tac ]. reflexivity.
   - (* G711 *) cbn in *. injection Hr as <-. injection Hf as <-.
-    split; [destruct Hwf as [(-> & _)|[(-> & _)|(Hd & _)]]; [lia|lia|apply dyn_lt256; exact Hd]|split; [|constructor]].
+    split; [destruct Hwf as [(-> & _)|[(-> & _)|(Hd & _)]]; [lia|lia|exact Hd]|split; [|constructor]].
     destruct (ch =? 1); [rewrite app_nil_r|]; last_dec.
   - (* LPCM *) cbn in *. injection Hr as <-. injection Hf as <-.
-    split; [destruct Hwf as [(-> & _)|[(-> & _)|(Hd & _)]]; [lia|lia|apply dyn_lt256; exact Hd]|split; [|constructor]].
+    split; [destruct Hwf as [(-> & _)|[(-> & _)|(Hd & _)]]; [lia|lia|exact Hd]|split; [|constructor]].
     last_dec.
   - (* KLV *) cbn in *. injection Hr as <-. injection Hf as <-.
     split; [apply dyn_lt256; exact Hwf|split; [reflexivity|constructor]].
